@@ -1526,9 +1526,12 @@ def _compute_permutation_c(
         import phonopy._phonopy as phonoc
 
         tolerance = symprec
+        # The C function reads the lattice as a C-contiguous 3x3 array. A
+        # transposed view (e.g. ``cell.T``) would be read as its transpose.
+        lattice_c = np.array(lattice, dtype="double", order="C")
         for _ in range(20):
             is_found = phonoc.compute_permutation(
-                permutation, lattice, positions_a, positions_b, tolerance
+                permutation, lattice_c, positions_a, positions_b, tolerance
             )
             if is_found:
                 break
